@@ -278,8 +278,13 @@ def _op_case(draw):
     weighting = None
     if dtype != 'int64' and draw(st.integers(0, 4)) == 0:
         weighting = draw(st.sampled_from([2.0, 0.5, 3.0]))
+    ran_weighting = None
+    if how == 'range' and dtype != 'int64' and draw(st.integers(0, 2)) == 0:
+        # explicit range carrying its own constant weighting
+        ran_weighting = draw(st.sampled_from([2.0, 0.5, 3.0]))
     return {'kind': 'op', 'shape': shape, 'min': mins, 'cell': cells,
             'dtype': dtype, 'nob': nob, 'weighting': weighting,
+            'ran_weighting': ran_weighting,
             'ran_shp': ran_shp, 'how': how, 'offset': offsets,
             'discr_kwargs': dk, 'mode': mode,
             'pad_const': draw(_pad_const(dtype, mode, castable_only=True)),
@@ -694,7 +699,11 @@ def _run_op(desc):
             num_l = eff[i] if d > 0 else -eff[i]
             rmin.append(mins[i] - num_l * dxs[i])
             rmax.append(maxs[i] + (d - num_l) * dxs[i])
-        ran = build.build_space(dict(sd, min=rmin, max=rmax, shape=ran_shp))
+        rsd = dict(sd, min=rmin, max=rmax, shape=ran_shp)
+        if desc.get('ran_weighting') is not None:
+            rsd['weighting'] = {'type': 'const',
+                                'value': desc['ran_weighting']}
+        ran = build.build_space(rsd)
         op = odl.ResizingOperator(dom, ran, **kwargs)
     else:
         if offs_in is not None:
@@ -709,8 +718,12 @@ def _run_op(desc):
         ran = op.range
 
     has_nob = any(a or b for a, b in dsides + rsides)
+    wdiff = desc['how'] == 'range' and \
+        desc.get('ran_weighting') is not None and \
+        desc.get('ran_weighting') != desc['weighting']
     wreg = ('nob' if has_nob else 'plain') + \
-        (',wconst' if desc['weighting'] is not None else '')
+        (',wdiff' if wdiff else
+         (',wconst' if desc['weighting'] is not None else ''))
     sigt = 'ResizingOperator|{},{}'.format(mode, wreg)
 
     # ---- structure -----------------------------------------------------------
@@ -805,8 +818,9 @@ def _run_op(desc):
                                     else ('nob' if any(
                                         a or b for a, b in rsides)
                                         else 'plain')),
-              'op|weighting:' + ('const' if desc['weighting'] is not None
-                                 else 'default'),
+              'op|weighting:' + ('differ' if wdiff else
+                                 ('const' if desc['weighting'] is not None
+                                  else 'default')),
               'op|cfg:{}|{}'.format(mode, shape_reg)]
     why = P.violated_precondition(shape, ran_shp, eff, mode, c, dt,
                                   'forward')
@@ -963,7 +977,7 @@ def _run_op(desc):
                           '{!r}, discr_kwargs {!r})'.format(
                               defect, shape, ran_shp, eff, desc['nob'],
                               desc['discr_kwargs']))
-            if has_nob:
+            if has_nob or wdiff:
                 deferred.append(v)
             else:
                 raise v
@@ -999,4 +1013,5 @@ REQUIRED_STRATA = (
      'op|shape:grow', 'op|shape:shrink', 'op|shape:mixed', 'op|how:range',
      'op|offset:none', 'op|offset:partial', 'op|dom_nob:yes',
      'op|discr_kwargs:nob', 'op|discr_kwargs:plain', 'op|weighting:const',
+     'op|weighting:differ',
      'op|affine', 'op|adjoint-evaluated', 'op|gram:plain'])
